@@ -23,6 +23,7 @@ func ruleC15(w *World, r *Report) {
 	const P = "C15"
 	r.Explanation = "R15.1 pool purity: every value handed to a release function of a pool has the provenance 'allocated from that pool' (directly, or through the meter-cell fields under the meter-type arm of the same kind; for counters the released field path equals the path the allocation was stored to); R15.2 releases in sendDelete are dominated by the success edge of the DELETE write that removes the referencing entries; " +
 		"R15.3 release-on-error closures release only what this call allocated (the !exists guard) and shared maps are updated only after the write succeeded; R15.4 every P4Runtime write reachable from create/update has its error flow to the function's error result (success unreachable unless err == nil), the per-update status filter rejects on the first status that is neither OK nor ALREADY_EXISTS and on an empty status list, SendMsgToUPF maps every error to a rejected cause; R15.5 references and pools a live session holds are only given up where the session's entries are deleted: the application-reference release runs only under the DELETE method, and the connection object whose absence makes tryConnect refill all pools (up4.p4client) is only ever assigned a successfully created client."
+	r.Explanation += " Release sites reached through a function value (release := up4.releaseApp…; if … { release = up4.releaseSession… }) are resolved per selecting edge, edges decided by the fields of a local meter literal are folded, and a meter literal's own meterType names the pool of its cells."
 	r.NotDecided = "multi-fault sequences as such (the rules are per site and independent of which write fails); that the switch's state matches after partial batches"
 	up := func(n string) *ssa.Function { return w.Fn(P, "pfcpiface.(*UP4)."+n) }
 
@@ -34,13 +35,42 @@ func ruleC15(w *World, r *Report) {
 		if f.Pkg == nil || f.Pkg.Pkg.Path() != pfcpPkg {
 			continue
 		}
-		for _, c := range callsIn(f, func(c ssa.CallInstruction) bool { return staticCallee(c) == relApp || staticCallee(c) == relSess }) {
+		// release sites: static calls, and calls of a function value that is one of the two release methods
+		// depending on the way the call is reached (release := up4.releaseApp…; if … { release = up4.releaseSession… })
+		type relSite struct {
+			c      ssa.CallInstruction
+			callee *ssa.Function
+			enter  [2]*ssa.BasicBlock // the φ edge that selects the callee (nil for a static call)
+		}
+		var sites []relSite
+		for _, c := range callsIn(f, func(c ssa.CallInstruction) bool { return true }) {
+			if g := c.Common().StaticCallee(); g != nil {
+				if g == relApp || g == relSess {
+					sites = append(sites, relSite{c: c, callee: g})
+				}
+				continue
+			}
+			if phi, ok := c.Common().Value.(*ssa.Phi); ok && !c.Common().IsInvoke() {
+				for k, e := range phi.Edges {
+					if g := closureOf(e); g == relApp || g == relSess {
+						sites = append(sites, relSite{c: c, callee: g, enter: [2]*ssa.BasicBlock{phi.Block().Preds[k], phi.Block()}})
+					}
+				}
+			} else if g := closureOf(c.Common().Value); !c.Common().IsInvoke() && (g == relApp || g == relSess) {
+				sites = append(sites, relSite{c: c, callee: g})
+			}
+		}
+		for _, site := range sites {
+			c := site.c
+			if site.enter[1] != nil && !edgeFeasible(site.enter[0], site.enter[1]) {
+				continue
+			}
 			nRel++
 			kind := "app"
-			if staticCallee(c) == relSess {
+			if site.callee == relSess {
 				kind = "session"
 			}
-			arg := c.Common().Args[1]
+			arg := c.Common().Args[len(c.Common().Args)-1]
 			s := symOf(arg)
 			leaves := strings.Join(s.Leaves(), " ")
 			got := ""
@@ -50,20 +80,56 @@ func ruleC15(w *World, r *Report) {
 			case strings.Contains(leaves, "allocateSessionMeterCellID#0") && !strings.Contains(leaves, "allocateAppMeterCellID#0"):
 				got = "session"
 			case strings.Contains(leaves, "UP4.meters") || strings.Contains(leaves, "meter."):
+				stored := strings.Contains(leaves, "UP4.meters")
+				// a meter value built in this function: its own meterType field says which pool its cells are from
+				if ld, ok := arg.(*ssa.UnOp); ok && ld.Op == token.MUL && !stored {
+					if fa, ok := ld.X.(*ssa.FieldAddr); ok {
+						if al, ok := fa.X.(*ssa.Alloc); ok {
+							if st := derefStruct(al.Type()); st != nil {
+								for fi := 0; fi < st.NumFields(); fi++ {
+									if st.Field(fi).Name() == "meterType" {
+										if k, known := literalFieldOf(al, fi, 0); known {
+											switch k {
+											case mtApp:
+												got = "app"
+											case mtSess:
+												got = "session"
+											default:
+												got = "untagged literal"
+											}
+										}
+									}
+								}
+							}
+						}
+					}
+				}
+				if got != "" {
+					break
+				}
 				// a stored meter: the kind is decided by the meter-type arm that dominates the call
 				for _, mt := range []struct {
 					k    int64
 					name string
 				}{{mtApp, "app"}, {mtSess, "session"}} {
 					mt := mt
-					if onlyVia(f, c.(ssa.Instruction), func(a, b *ssa.BasicBlock) bool {
+					if reach(f, nil, func(i ssa.Instruction) bool { return i == c.(ssa.Instruction) }, nil, func(a, b *ssa.BasicBlock) bool {
+						// only the ways that select this callee
+						if site.enter[1] != nil && b == site.enter[1] && a != site.enter[0] {
+							return true
+						}
 						x, op, y, ok := edgeFact(a, b)
-						if !ok || op != token.EQL || !strings.HasSuffix(symOf(x).String(), ".meterType") {
+						if !ok || !strings.HasSuffix(symOf(x).String(), ".meterType") {
 							return false
 						}
 						k, isK := constInt(y)
-						return isK && k == mt.k
-					}) {
+						if !isK {
+							return false
+						}
+						// meterType == k, or — for stored meters, which are always tagged with one of the two kinds
+						// (checked below) — meterType != the other kind
+						return (op == token.EQL && k == mt.k) || (stored && op == token.NEQ && k != mt.k)
+					}) == nil {
 						got = mt.name
 					}
 				}
@@ -236,42 +302,7 @@ func ruleC15(w *World, r *Report) {
 	}
 
 	// ---------- R15.3 release-on-error
-	{
-		f := up("addOrUpdateGTPTunnelPeer")
-		fn := w.FuncName(f)
-		release := up("unsafeReleaseAllocatedGTPTunnelPeer")
-		n := 0
-		for _, g := range withClosures(f) {
-			for _, c := range callsTo(g, release) {
-				n++
-				okGuard := onlyVia(g, c.(ssa.Instruction), func(a, b *ssa.BasicBlock) bool {
-					v, truth, ok := boolEdge(a, b)
-					if !ok || truth {
-						return false
-					}
-					s := symOf(v).String()
-					return strings.Contains(s, "UP4.tunnelPeerIDs[]#ok")
-				})
-				r.check(okGuard, "R15.3", w.FuncName(g), "error path releases the tunnel-peer id only if this call allocated it (!exists)", w.Pos(c.Pos()), "dominated by the lookup's absence", "a failed write releases the id of a tunnel peer that already existed: a live session's id goes back to the free queue")
-			}
-		}
-		r.floor("R15.3 tunnel-peer release-on-error sites", n, 1)
-		// the shared map is updated only after the write succeeded
-		var apply *ssa.Call
-		allInstrs(f, func(i ssa.Instruction) {
-			if c, ok := i.(*ssa.Call); ok && staticCallee(c) != nil && staticCallee(c).Name() == "ApplyTableEntries" {
-				apply = c
-			}
-		})
-		allInstrs(f, func(i ssa.Instruction) {
-			mu, ok := i.(*ssa.MapUpdate)
-			if !ok || !strings.HasSuffix(symOf(mu.Map).String(), "UP4.tunnelPeerIDs") {
-				return
-			}
-			g := apply != nil && errGuardedStrict(f, apply, mu)
-			r.check(g, "R15.3", fn, "tunnel peer registered only after its write succeeded", w.Pos(mu.Pos()), "dominated by ApplyTableEntries == nil", "the tunnel peer is registered before the write: a failed write leaves a registered peer / lets the error path release a shared id")
-		})
-	}
+	ruleC15TunnelRelease(w, r, P)
 	{
 		f := up("addInternalApplicationIDAndGetP4rtEntry")
 		allInstrs(f, func(i ssa.Instruction) {
@@ -324,7 +355,28 @@ func ruleC15(w *World, r *Report) {
 					return true
 				}
 				for _, cc := range withClosures(callee) {
-					if len(callsTo(cc, relApp))+len(callsTo(cc, relSess)) > 0 && callee.Parent() == f {
+					if callee.Parent() != f {
+						continue
+					}
+					if len(callsTo(cc, relApp))+len(callsTo(cc, relSess)) > 0 {
+						return true
+					}
+					// through a function value that is one of the two release methods
+					via := false
+					allInstrs(cc, func(j ssa.Instruction) {
+						cj, ok := j.(ssa.CallInstruction)
+						if !ok || cj.Common().IsInvoke() {
+							return
+						}
+						if phi, ok := cj.Common().Value.(*ssa.Phi); ok {
+							for _, e := range phi.Edges {
+								if g := closureOf(e); g == relApp || g == relSess {
+									via = true
+								}
+							}
+						}
+					})
+					if via {
 						return true
 					}
 				}
@@ -718,4 +770,184 @@ func ruleC15Ownership(w *World, r *Report) {
 		s := symOf(c.Common().Args[1]).String()
 		r.check(strings.Contains(s, "p4client") && strings.Contains(s, "P4Info"), "R15.5", w.FuncName(tc), "state is cleared and pools refilled only for a first connect (no client / no pipeline yet)", w.Pos(c.Pos()), trunc80(s), "initialize is told to clear under "+trunc80(s))
 	}
+}
+
+// ruleC15TunnelRelease (R15.3; re-filed under C11 as R11.7: the tunnel peer is shared by associations).
+func ruleC15TunnelRelease(w *World, r *Report, P string) {
+	up := func(name string) *ssa.Function { return w.Fn(P, "pfcpiface.(*UP4)."+name) }
+	f := up("addOrUpdateGTPTunnelPeer")
+	fn := w.FuncName(f)
+	release := up("unsafeReleaseAllocatedGTPTunnelPeer")
+	n := 0
+	for _, g := range withClosures(f) {
+		for _, c := range callsTo(g, release) {
+			n++
+			okGuard := onlyVia(g, c.(ssa.Instruction), func(a, b *ssa.BasicBlock) bool {
+				v, truth, ok := boolEdge(a, b)
+				if !ok || truth {
+					return false
+				}
+				s := symOf(v).String()
+				return strings.Contains(s, "UP4.tunnelPeerIDs[]#ok")
+			})
+			r.check(okGuard, "R15.3", w.FuncName(g), "error path releases the tunnel-peer id only if this call allocated it (!exists)", w.Pos(c.Pos()), "dominated by the lookup's absence", "a failed write releases the id of a tunnel peer that already existed: a live session's id goes back to the free queue")
+		}
+	}
+	r.floor("R15.3 tunnel-peer release-on-error sites", n, 1)
+	// the shared map is updated only after the write succeeded
+	var apply *ssa.Call
+	allInstrs(f, func(i ssa.Instruction) {
+		if c, ok := i.(*ssa.Call); ok && staticCallee(c) != nil && staticCallee(c).Name() == "ApplyTableEntries" {
+			apply = c
+		}
+	})
+	allInstrs(f, func(i ssa.Instruction) {
+		mu, ok := i.(*ssa.MapUpdate)
+		if !ok || !strings.HasSuffix(symOf(mu.Map).String(), "UP4.tunnelPeerIDs") {
+			return
+		}
+		g := apply != nil && errGuardedStrict(f, apply, mu)
+		r.check(g, "R15.3", fn, "tunnel peer registered only after its write succeeded", w.Pos(mu.Pos()), "dominated by ApplyTableEntries == nil", "the tunnel peer is registered before the write: a failed write leaves a registered peer / lets the error path release a shared id")
+	})
+}
+
+// edgeFeasible: false when the condition that selects the edge a→b is a comparison of a field of a
+// struct literal built in this function with a constant, and the literal's field (its stored constant,
+// or the zero value when the literal does not mention it) decides the other way.
+func edgeFeasible(a, b *ssa.BasicBlock) bool {
+	x, op, y, ok := edgeFact(a, b)
+	if !ok {
+		// an unconditional edge out of a block with one way in: that way decides
+		if blockIf(a) == nil && len(a.Preds) == 1 && a.Preds[0] != a {
+			return edgeFeasible(a.Preds[0], a)
+		}
+		return true
+	}
+	k, isK := constInt(y)
+	if !isK {
+		return true
+	}
+	v, known := literalField(x)
+	if !known {
+		return true
+	}
+	switch op {
+	case token.EQL:
+		return v == k
+	case token.NEQ:
+		return v != k
+	}
+	return true
+}
+
+// literalField: the constant a field of a local struct literal holds.
+func literalField(v ssa.Value) (int64, bool) {
+	switch x := v.(type) {
+	case *ssa.Field:
+		if ld, ok := x.X.(*ssa.UnOp); ok && ld.Op == token.MUL {
+			if al, ok := ld.X.(*ssa.Alloc); ok {
+				return literalFieldOf(al, x.Field, 0)
+			}
+		}
+	case *ssa.UnOp:
+		if x.Op == token.MUL {
+			if fa, ok := x.X.(*ssa.FieldAddr); ok {
+				if al, ok := fa.X.(*ssa.Alloc); ok {
+					return literalFieldOf(al, fa.Field, 0)
+				}
+			}
+		}
+	}
+	return 0, false
+}
+
+// literalFieldOf: field #field of the struct in cell al, when the cell is only ever filled by a literal
+// (field stores of constants; an unmentioned field is zero) or by one copy of such a cell. The cell may
+// be captured by function literals as long as they do not write the field either.
+func literalFieldOf(al *ssa.Alloc, field int, depth int) (int64, bool) {
+	if depth > 3 || al.Referrers() == nil {
+		return 0, false
+	}
+	val, have := int64(0), false
+	var copyOf *ssa.Alloc
+	okAll := true
+	var scan func(cell ssa.Value, d int)
+	scan = func(cell ssa.Value, d int) {
+		refs := cell.Referrers()
+		if refs == nil || d > 3 {
+			okAll = false
+			return
+		}
+		for _, ref := range *refs {
+			switch r := ref.(type) {
+			case *ssa.FieldAddr:
+				for _, rr := range *r.Referrers() {
+					st, isSt := rr.(*ssa.Store)
+					if !isSt {
+						if _, isLd := rr.(*ssa.UnOp); isLd {
+							continue
+						}
+						if r.Field != field {
+							continue // another field's address is used elsewhere
+						}
+						okAll = false
+						return
+					}
+					if r.Field != field || st.Addr != ssa.Value(r) {
+						continue
+					}
+					k, isK := constInt(st.Val)
+					if !isK || have {
+						okAll = false
+						return
+					}
+					val, have = k, true
+				}
+			case *ssa.UnOp:
+				// whole-struct load
+			case *ssa.Store:
+				if r.Addr != cell {
+					okAll = false // the cell's address is stored somewhere
+					return
+				}
+				ld, ok := r.Val.(*ssa.UnOp)
+				if !ok || ld.Op != token.MUL || copyOf != nil {
+					okAll = false
+					return
+				}
+				src, _ := cellOf(ld.X).(*ssa.Alloc)
+				if src == nil {
+					okAll = false
+					return
+				}
+				copyOf = src
+			case *ssa.MakeClosure:
+				fn, _ := r.Fn.(*ssa.Function)
+				if fn == nil {
+					okAll = false
+					return
+				}
+				for bi, b := range r.Bindings {
+					if b == cell && bi < len(fn.FreeVars) {
+						scan(fn.FreeVars[bi], d+1)
+					}
+				}
+			case *ssa.DebugRef:
+			default:
+				okAll = false // passed somewhere
+				return
+			}
+		}
+	}
+	scan(al, 0)
+	if !okAll {
+		return 0, false
+	}
+	if copyOf != nil {
+		if have {
+			return 0, false
+		}
+		return literalFieldOf(copyOf, field, depth+1)
+	}
+	return val, true
 }
